@@ -205,13 +205,17 @@ def replay_copula_margins(sc):
     ms = [HEM.HEMModel(HEM.HEMParameters(sigma=0.1, p=0.4, eta1=20.0, eta2=25.0, intensity=3.0)), CGMY.CGMYModel(CGMY.CGMYParameters(c=0.1, g=5.0, m=6.0, y=1.3))]
     lcm = LCM.LevyCopulaModel(models=ms, copula=ClaytonCopula(theta=0.7, eta=0.3))
     out = []
-    for h, axis in ((0.2, np.array([-2.0, -1.0, -0.2, 0.0, 0.2, 1.0, 2.0])), (0.1, np.array([-0.5, -0.3, -0.1, 0.0, 0.1, 0.25, 0.4]))):
-      # second grid: narrow, so that the jumps it cuts away carry a visible part of the mean of the untruncated margins
-      grid = GS.CTMCGrid(h=h, origin_coordinate=3, axes=[axis.copy(), axis.copy()])
+    for h, axis0, axis1 in ((0.2, np.array([-2.0, -1.0, -0.2, 0.0, 0.2, 1.0, 2.0]), None), (0.1, np.array([-0.5, -0.3, -0.1, 0.0, 0.1, 0.25, 0.4]), None),
+                            (0.1, np.array([-0.5, -0.3, -0.1, 0.0, 0.1, 0.25, 0.4]), np.array([-0.8, -0.2, -0.1, 0.0, 0.1, 0.4, 0.9]))):
+      # second grid: narrow, so that the jumps it cuts away carry a visible part of the mean of the untruncated margins; third grid: the two
+      # axes differ (one threshold per name on a credit grid)
+      axes = [axis0.copy(), (axis0 if axis1 is None else axis1).copy()]
+      grid = GS.CTMCGrid(h=h, origin_coordinate=3, axes=[a.copy() for a in axes])
       proc = MCLC.MarkovChainLevyCopula(lcm, grid, SamplingMethod.INVERSION)
       proc.initialisation(StubProduct())
       drift = np.asarray(proc.process_drift(), dtype=float)
       for i, m in enumerate(ms):
+          axis = axes[i]
           nu = m.levy_triplet.nu
           q = SF.create_q_vector(proc.model.models[i].levy_triplet.nu, GS.CTMCGrid(h=h, origin_coordinate=3, axes=[axis.copy()]))
           got = drift[i, 0] + float(np.dot(axis, q))
@@ -230,12 +234,14 @@ def replay_copula_margins(sc):
     return bool(out), "HEM x CGMY(y=1.3), Clayton: " + "; ".join(out)
 
 
-def h_copula_margins(ctx, npts, rep, fv):
-    """each margin of a copula chain: drift_i + mu_h_i = model drift_i + mean of the truncated margin i; fv may be a pair (one flag per margin)"""
+def h_copula_margins(ctx, npts, rep, fv, nr=None):
+    """each margin of a copula chain: drift_i + mu_h_i = model drift_i + mean of the truncated margin i; fv may be a pair (one flag per margin).
+    nr: points right of the origin (default npts): with nr > 1 the two axes differ in their outer points (what a credit grid with one
+    threshold per name produces)"""
     d = 2
     fvs = tuple(fv) if isinstance(fv, (tuple, list)) else (fv,) * d
-    axis, h, pivot = sym_axis(ctx, npts, npts, name="x0")
-    axis2, _, _ = sym_axis(ctx, npts, npts, name="x1", h=h)
+    axis, h, pivot = sym_axis(ctx, npts, nr or npts, name="x0")
+    axis2, _, _ = sym_axis(ctx, npts, nr or npts, name="x1", h=h)
     grid = make_grid(h, pivot, [axis, axis2])
     a = [ctx.real(f"a{i}") for i in range(d)]
     models = [A.abs_levy_model(ctx, f"nu{i}", sigma=0.0, a=a[i], representation=REPS[rep], finite_activity=False, finite_variation=fvs[i], bg_index=0.5 if fvs[i] else 1.5)
@@ -376,6 +382,7 @@ def harnesses(tier):
         if rep != "ZERO":  # the ZERO representation needs finite variation
             hs.append(Harness(f"copula.mixed.{rep}", h_copula_margins, {"npts": 1, "rep": rep, "fv": (True, False)}, max_paths=6000, batch=10))
             hs.append(Harness(f"copula.iv.{rep}", h_copula_margins, {"npts": 1, "rep": rep, "fv": (False, False)}, max_paths=6000, batch=10))
+    hs.append(Harness("copula.axes_differ.TILDE", h_copula_margins, {"npts": 1, "nr": 2, "rep": "TILDE", "fv": True}, max_paths=6000, batch=10))
     hs.append(Harness("copula.variance", h_copula_variance, max_paths=2000, batch=10))
     hs.append(Harness("twin", h_twin, twin="must_fail"))
     return hs
